@@ -549,6 +549,11 @@ def main():
     "edits and summary-table creation are not in the random action mix (several independent "
     "defects in how dependents are invalidated make nearly every such history fail); the defects "
     "found there are pinned by %d fixed witness histories" % len(WITNESSES))
+  # supporting deductive lemmas: depend.Graph against its abstract edge set, with the invariant that
+  # both node indexes are exactly that set (a stale index entry is how invalidation misses a dependent)
+  from vlib.pysym import runner
+  common.setup_grist_path()
+  runner.run_property(rep, "contracts.C05_graph", bounded=False)
   return rep.finish()
 
 
